@@ -385,6 +385,15 @@ func (e *Exec) Run() (v *Violation) {
 		if hugeKeys && i%4 == 3 {
 			runtime.GC() // automatic collection is off; runs with 64 KiB keys would otherwise pile up gigabytes
 		}
+		if i%128 == 127 {
+			// safety valve, deterministic for a given trace: long runs must not pile up garbage without bound
+			var ms runtime.MemStats
+			runtime.ReadMemStats(&ms)
+			if ms.HeapAlloc > 768<<20 {
+				runtime.GC()
+				e.st.Events["gc_safety_valve"]++
+			}
+		}
 		if s.T < 0 {
 			if s.Op == "scribble" {
 				if v := e.scribbleAll(i); v != nil {
